@@ -284,6 +284,17 @@ func (g *G) inline(k int) string {
 		case "litword":
 			// words that are also tag names, as the whole text of an inline element
 			parts = append(parts, g.words(max(1, n-1))+" <"+"code>"+g.pick("litw", "br", "style", "script", "hr", "noscript")+"</code>")
+		case "aempty":
+			// a named anchor (jump target) without content, between words or right before a link
+			anchor := g.pick("aemptyform", `<a name="src"></a>`, `<a id="ref1"></a>`, `<a></a>`, `<a name="n"></a>`)
+			if g.chance(60, "aemptylink") {
+				parts = append(parts, g.words(n)+" "+anchor+`<a href="`+g.url("a")+`">`+g.words(2)+"</a>")
+				n += 2
+			} else {
+				m := g.intn(1, max(1, n-1), "aemptyw")
+				parts = append(parts, g.words(m)+" "+anchor+" "+g.words(max(1, n-m)))
+				n = m + max(1, n-m)
+			}
 		case "brlast":
 			// a line break as the last child of an inline element, text going on after it
 			m := g.intn(1, max(1, n-1), "brlastw")
@@ -479,6 +490,13 @@ func (g *G) dataTable() string {
 			}
 			if spacer || (g.P.EmptyCells && g.intn(0, 7, "emptycell") == 0) {
 				b.WriteString("<td" + g.at("td") + "></td>")
+				continue
+			}
+			if g.P.EmptyCells && g.intn(0, 9, "voidcell") == 0 {
+				// a cell that holds nothing that is displayed (placeholder comment, hidden note, script)
+				g.push("ha")
+				b.WriteString("<td" + g.at("td") + ">" + g.pick("voidcellk", "<!-- no value -->", "<span hidden>"+g.words(1)+"</span>", "<script>var c=0</script>", "<!-- a --><!-- b -->", `<span style="display:none">`+g.words(1)+"</span>") + "</td>")
+				g.pop()
 				continue
 			}
 			b.WriteString("<td" + g.at("td") + ">" + g.cell() + "</td>")
